@@ -43,6 +43,11 @@ def tasks(tier, seed):
             ts.append({"part": "short", "n": n, "api": api, "bound": None, "name": "short/%s/%d" % (api, n)})
     for n in (130, 70000):
         ts.append({"part": "short", "n": n, "api": "send", "bound": 2 if q else 3, "name": "short/send/%d" % n})
+    # would-block answers (EAGAIN / SSLWantWriteError) between short writes, on connections with a timeout and without
+    for wb in ("eagain", "want-write"):
+        for tmo in (5, None):
+            ts.append({"part": "short", "n": 3, "api": "send", "bound": None, "wouldblock": wb, "timeout": tmo, "name": "short/send/3/%s/t%s" % (wb, tmo)})
+            ts.append({"part": "short", "n": 130, "api": "send", "bound": 3 if q else 4, "wouldblock": wb, "timeout": tmo, "name": "short/send/130/%s/t%s" % (wb, tmo)})
     # the same through WebSocketApp (its connection object writes through the dispatcher's send)
     for accept in (None, "one", "half"):
         for tls in (False, True):
@@ -88,16 +93,46 @@ class ShortHarness:
         return [m] + sorted({1, 2, 3, m // 2, m - 2, m - 1, 16384} - {m, 0})
 
     def __call__(self, ch):
+        if self.d.get("wouldblock"):
+            env.install_selectors()
+            try:
+                return self.run(ch)
+            finally:
+                env.uninstall_selectors()
+        return self.run(ch)
+
+    def run(self, ch):
         d = self.d
         lib.reset_globals()
         env.install_urandom("counter")
         H = self
 
-        def menu(sock, data):
-            return [k for k in H.ks(len(data)) if k <= len(data)]
+        st = {"wb": 0, "last_wb": False}
 
-        sock = env.ScriptSock(b"", ch=ch, send_menu=menu)
+        def menu(sock, data):
+            m = [k for k in H.ks(len(data)) if k <= len(data)]
+            if d.get("wouldblock") and not st["last_wb"] and st["wb"] < 2:
+                # the transport cannot take anything right now (EAGAIN / SSLWantWrite); the library polls for writability and tries again
+                exc = BlockingIOError(11, "Resource temporarily unavailable") if d["wouldblock"] == "eagain" else __import__("ssl").SSLWantWriteError(3, "The operation did not complete (write)")
+                m = m + [("error", "wouldblock", exc)]
+            return m
+
+        class WSock(env.ScriptSock):
+            def send(self_, data):
+                n0 = len(self_.log)
+                try:
+                    r = env.ScriptSock.send(self_, data)
+                    st["last_wb"] = False
+                    return r
+                except (BlockingIOError, OSError) as e:
+                    st["last_wb"] = True
+                    st["wb"] += 1
+                    raise
+
+        sock = WSock(b"", ch=ch, send_menu=menu)
         ws = env.make_ws(sock)
+        if d.get("wouldblock"):
+            ws.settimeout(d.get("timeout", 5))
         payload = bytes((i * 11 + 1) % 256 for i in range(d["n"]))
         if d["api"] == "send":
             ret = ws.send(payload, lib.websocket.ABNF.OPCODE_BINARY)
@@ -394,6 +429,23 @@ class MixedHarness:
             raise Violation(dict(sig, how="pong-missing"), "no intact pong on the wire: %r" % ([(o, len(p)) for o, p in got_w],))
         if got != ["x1", "x2"]:
             raise Violation(dict(sig, how="messages"), "receiver got %r" % (got,))
+        # C07's clause under contention for the send lock: once the ping has been read, the receiving thread does not touch the transport
+        # for reading again before the complete pong is on the wire (it waits for the lock instead)
+        ping_end = len(R.encode(R.TEXT, b"x1") + R.encode(R.PING, b"PING-PAYLOAD-16by"))
+        nread, wire_so_far, after_ping = 0, b"", False
+        for kind, thread, val in sock.events:
+            if kind == "r":
+                nread += val
+                if nread >= ping_end:
+                    after_ping = True
+            elif kind == "w":
+                wire_so_far += val
+            elif kind == "recv-call" and after_ping and thread == "receiver":
+                fr, _ = R.decode_all(wire_so_far)
+                if not any(f.opcode == R.PONG and f.payload == b"PING-PAYLOAD-16by" for f in fr):
+                    raise Violation(dict(sig, how="read-on-before-pong"), "after reading the ping the receiving thread called recv() on the transport again while the wire held only %r (pong not yet complete)" % (
+                        [(f.opcode, len(f.payload)) for f in fr],))
+                break
         return tuple(o for o, p in got_w)
 
 
